@@ -8,5 +8,6 @@ pub mod cfgs;
 pub mod oracle;
 pub mod subs;
 pub mod exec;
+#[cfg(any(feature = "std", feature = "alloc"))]
 pub mod hist;
 pub mod threads;
